@@ -1144,9 +1144,28 @@ func ruleBinds(w *World, r *Report, e *Engine) {
 		r.undecided("C01.binds", nil, "binder", token.NoPos, "_newSubordinateEnvWithBinds no longer resolves")
 		return
 	}
+	// the binding loop may live in an unexported function the binder is built from
+	for _, cand := range w.withPkgHelpers(fn) {
+		for _, l := range naturalLoops(cand) {
+			for b := range loopBlocks(l) {
+				if iff := blockIf(b); iff != nil {
+					if _, s, ok := strEq(iff.Cond); ok && s == "&" {
+						fn = cand
+					}
+				}
+			}
+		}
+	}
 	loops := naturalLoops(fn)
 	if !r.check(len(loops) == 1, "C01.binds", fn, "binding loop", fn.Pos(), "one loop over the parameter list", "binder loop not found") {
 		return
+	}
+	// error result: the last result of the function holding the loop
+	errOf := func(ret *ssa.Return) (ssa.Value, bool) {
+		if len(ret.Results) == 0 || !isErrorType(ret.Results[len(ret.Results)-1].Type()) {
+			return nil, false
+		}
+		return resolveRet(ret.Results[len(ret.Results)-1]), true
 	}
 	blocks := loopBlocks(loops[0])
 	// the & test: comparison of a string with "&"
@@ -1226,7 +1245,10 @@ func ruleBinds(w *World, r *Report, e *Engine) {
 	inLoop, after := 0, 0
 	for _, b := range fn.Blocks {
 		ret, ok := b.Instrs[len(b.Instrs)-1].(*ssa.Return)
-		if !ok || len(ret.Results) < 2 || isNilConst(ret.Results[1]) {
+		if !ok {
+			continue
+		}
+		if ev, isErr := errOf(ret); !isErr || isNilConst(ev) {
 			continue
 		}
 		if blocks[b] || anyPredIn(b, blocks) {
@@ -1245,8 +1267,10 @@ func ruleBinds(w *World, r *Report, e *Engine) {
 		}
 		if iff := blockIf(b); iff != nil {
 			for _, s := range b.Succs {
-				if ret, ok := s.Instrs[len(s.Instrs)-1].(*ssa.Return); ok && len(ret.Results) == 2 && !isNilConst(ret.Results[1]) {
-					arity = b
+				if ret, ok := s.Instrs[len(s.Instrs)-1].(*ssa.Return); ok {
+					if ev, isErr := errOf(ret); isErr && !isNilConst(ev) {
+						arity = b
+					}
 				}
 			}
 		}
@@ -1265,6 +1289,9 @@ func ruleBinds(w *World, r *Report, e *Engine) {
 				}
 			}
 		}
+		if start == nil && len(fn.Blocks) > 0 {
+			start = fn.Blocks[0] // the lists were unpacked by the caller
+		}
 		bypass := false
 		if start != nil {
 			seen := map[*ssa.BasicBlock]bool{}
@@ -1276,8 +1303,10 @@ func ruleBinds(w *World, r *Report, e *Engine) {
 					continue
 				}
 				seen[b] = true
-				if ret, ok := b.Instrs[len(b.Instrs)-1].(*ssa.Return); ok && len(ret.Results) == 2 && isNilConst(resolveRet(ret.Results[1])) {
-					bypass = true
+				if ret, ok := b.Instrs[len(b.Instrs)-1].(*ssa.Return); ok {
+					if ev, isErr := errOf(ret); isErr && isNilConst(ev) {
+						bypass = true
+					}
 				}
 				stack = append(stack, b.Succs...)
 			}
